@@ -254,6 +254,8 @@ class CcLinker(BuildCommand):
                 flags.append('-g')
             elif isinstance(i, opts.static):
                 flags.append('-static')
+            elif isinstance(i, opts.sanitize):
+                flags.append('-fsanitize=address')
             elif isinstance(i, opts.optimize):
                 for j in i.value:
                     flags.append(optimize_flags[j])
